@@ -1,13 +1,18 @@
 """C06 - indexing, slicing, +, * and join act like str and carry formatting along."""
 import itertools
 import contracts.formatstring as F
+import contracts.atts  # noqa: F401  (callee contract of copy_with_new_atts, used by fmtstr#plain)
 from pyvc.verify import verify
 from bounded.common import Suite, mk, layouts, FmtStr, Chunk, fmtstr
 
 LEVEL = "proof"
-CONTRACTS = [F.normalize_slice, F.getitem, F.add, F.radd, F.mul, F.join]
+CONTRACTS = [F.normalize_slice, F.getitem, F.add, F.radd, F.mul, F.join, F.from_str_plain, F.fmtstr_plain_body]
 ASSUMPTIONS = [
-    "fmtstr(s) == FmtStr(Chunk(s)) for a plain str free of 'ESC[' (assumed contract of fmtstr; join's str items)",
+    "fmtstr(s) == FmtStr(Chunk(s)) for a str free of 'ESC[' is no longer assumed: the real bodies of fmtstr (no formatting arguments, "
+    "parse_args inlined) and FmtStr.from_str are verified against it here (fmtstr#plain, FmtStr.from_str#plain); join's str items are "
+    "required to be free of 'ESC['",
+    "PLAIN(s) := 'ESC[' does not occur in s; the lemma PLAIN(blanks ++ y) == PLAIN(y) == PLAIN(y ++ blanks) used for padded rows is "
+    "validated by exhaustive evaluation (blanks <= 3, y <= 5 over {ESC, '[', ' ', 'a'}) on every run, not proved",
     "FmtStr.__len__/.s are used through their contracts here; their bodies are verified under the memo invariant in C13",
     "list-homomorphism lemma schemas (VIEW/TEXT/TOTLEN over ++, unit, filter-nonempty; CELLS over slice/concat) - lean/Lemmas.lean",
     "Python ints are mathematical integers; CPython semantics of the supported constructs (DESIGN 2.2)",
@@ -67,7 +72,22 @@ def bounded(check, tier):
     s.done()
 
 
+def plain_lemma_selftest(check):
+    """PLAIN(' '*k + y) == PLAIN(y) == PLAIN(y + ' '*k): exhaustive small scope (the only string-theory lemma the engine assumes)"""
+    bad = 0
+    for n in range(0, 6):
+        for p in itertools.product("\x1b[ a", repeat=n):
+            y = "".join(p)
+            for k in range(0, 4):
+                pl = "\x1b[" not in y
+                if ("\x1b[" not in (" " * k + y)) != pl or ("\x1b[" not in (y + " " * k)) != pl:
+                    bad += 1
+    if bad:
+        check.engine_error(f"PLAIN/blank lemma fails on {bad} small cases")
+
+
 def run(check, tier, seed):
+    plain_lemma_selftest(check)
     for c in CONTRACTS:
         verify(c, tier, check)
     bounded(check, tier)
